@@ -16,7 +16,7 @@ import (
 )
 
 func RunFixpointCover(w *World, r *Report, br *boundsRun, fns []*ssa.Function) {
-	r.Rule("fixpointcover: where a loop `for i < B` compares x[i] with y[i] for every i (convergence test of an offset fixed point), no element y[k] or x[k] that the enclosing loop reads has an index k the prover shows to be >= B")
+	r.Rule("fixpointcover: where a loop `for i < B` compares x[i] with y[i] for every i (convergence test of an offset fixed point), no element y[k] or x[k] that the enclosing loop reads has an index k the prover shows to be >= B, and the enclosing loop has no exit decided by a round counter (the iteration ends by convergence only)")
 	for _, fn := range fns {
 		loops := naturalLoops(fn)
 		if len(loops) < 2 {
@@ -75,6 +75,38 @@ func RunFixpointCover(w *World, r *Report, br *boundsRun, fns []*ssa.Function) {
 			bad := ""
 			var badPos token.Pos
 			n := 0
+			// the iteration may only end by convergence: an exit of the enclosing loop that is decided by a
+			// round counter leaves with offsets that have not settled
+			for ob := range outer.body {
+				if len(ob.Instrs) == 0 {
+					continue
+				}
+				ifi, ok := ob.Instrs[len(ob.Instrs)-1].(*ssa.If)
+				if !ok || (outer.body[ob.Succs[0]] && outer.body[ob.Succs[1]]) {
+					continue
+				}
+				cmp, ok := ifi.Cond.(*ssa.BinOp)
+				if !ok {
+					continue
+				}
+				for _, op := range []ssa.Value{cmp.X, cmp.Y} {
+					ph, ok := op.(*ssa.Phi)
+					if !ok || ph.Block() != outer.head || !isIntegerType(ph.Type()) {
+						continue
+					}
+					for i, e := range ph.Edges {
+						if !outer.head.Dominates(outer.head.Preds[i]) {
+							continue
+						}
+						if inc, ok := e.(*ssa.BinOp); ok && inc.Op == token.ADD && inc.X == ssa.Value(ph) {
+							if _, isC := inc.Y.(*ssa.Const); isC {
+								bad = "the enclosing loop is also left when the round counter " + ph.Comment + " reaches its bound"
+								badPos = ifi.Cond.Pos()
+							}
+						}
+					}
+				}
+			}
 			for b := range outer.body {
 				if l.body[b] {
 					continue
@@ -108,7 +140,7 @@ func RunFixpointCover(w *World, r *Report, br *boundsRun, fns []*ssa.Function) {
 				}
 			}
 			if bad != "" {
-				r.Fail("fixpointcover", key, w.Pos(badPos), bad+": the fixed point can be declared reached while an offset that is written into the output still changes", nil)
+				r.Fail("fixpointcover", key, w.Pos(badPos), bad+": the fixed point can be declared reached (or the iteration given up) while an offset that is written into the output still changes", nil)
 			} else {
 				r.OK("fixpointcover", key, w.Pos(loopPos(w, l)), fmt.Sprintf("%d other reads of the compared slices, none provably beyond the compared range", n))
 			}
